@@ -187,4 +187,18 @@ Section Drive.
                           | None => false
                           end) (g_nodes G)
       end) (combine (seq 0 (List.length (c_insts c))) (c_insts c)).
+
+  (* the conclusions of acquisition_order (all locks are free at the end) and of the
+     generator-call clause of fresh_state_per_run_and_nesting, evaluated *)
+  Definition key_eqb (a b : nat * N * kind) : bool :=
+    Nat.eqb (fst (fst a)) (fst (fst b)) && N.eqb (snd (fst a)) (snd (fst b)) && kind_eqb (snd a) (snd b).
+  Definition acq_ok (c : cfg) : bool :=
+    forallb (fun oi => let '(o, r) := oi in
+                       match o_holder r with
+                       | None => l_eqb key_eqb (acq_of sstate X c o) (done_of sstate X c o)
+                       | Some _ => false
+                       end)
+            (combine (seq 0 (List.length (c_objs c))) (c_objs c)).
+  Definition gens_ok (c : cfg) : bool :=
+    l_eqb Nat.eqb (c_gens c) (flat_map (ogen sstate) (c_objs c)).
 End Drive.
